@@ -79,6 +79,26 @@ CLAIMED = {
          "110 theorems; every operator the constant folder implements is covered end to end; nine recorded deviations (Eq/Ne/LogicAnd with X, Pow corners, out-of-range select, wide assign) keyed by verified signature with replayed witnesses.",
          "Trusted: Lean kernel; num-bigint = Nat/Int arithmetic; my transcription of IEEE 1800-2017 §11.4 (Ref), cross-checked against 550 unit-test vectors of value.rs.",
          "DESIGN.md §4 C17"),
+ "C05": ("proof", "Lean 4 proofs over a step-list model of a build's filesystem writes (crash = prefix; damage = arbitrary bytes/deletion): atomically written files are whole in every prefix, damaged manifest/blob is the original or a miss (decoder hypothesis explicit), negated recovery statements with concrete histories, recovery proved for the repaired staleness policy + correspondence (strace event word of real runs = model step list) + fault enumeration (SIGKILL at every write/rename/openat of the project dir via strace inject; truncation/bit-flip/garbage/delete of every .build file) with clean-build oracle",
+         "Crash-prefix and damage theorems for all plans/byte strings; six recorded findings (in-place outputs, map ignored by dst_is_stale, unverified blob payload, dropped diagnostics blob) keyed by verified signature; `veryl test` crash points are not enumerated.",
+         "Trusted: Lean kernel; strace injection semantics; toml/BLAKE3; analyzer and fragment codec opaque (C04 hypotheses).",
+         "DESIGN.md §4 C05"),
+ "C08": ("proof", "Lean 4 proof about an exact model of the aligner state machine (merge laws, padding = max − width, stability of groups/paddings under line moves that keep gap classes) and the reduction `same Doc ⇒ idempotent`; negated position-independence on the real recorded trace of the witness + correspondence (Lean aligner vs real Aligner on random call sequences and on the real formatter's recorded calls; Lean render of the real Docs) + oracle format(format s) = format s over testcases × token-gap mutants × option sets",
+         "Engines (aligner, renderer) proved; the 4 800-line formatter walker is validated through its real Docs and aligner calls. Non-idempotence of the unchanged tree (aligner groups cut by source-line gaps, incl. a period-2 oscillation) is recorded by three verified signatures.",
+         "Trusted: Lean kernel; the shim crate that records aligner calls (tied per case: byte-identical output, pads = additions).",
+         "DESIGN.md §4 C08"),
+ "C09": ("proof", "Lean 4 corollaries of the renderer theorems for formatter Docs (content preserved, only trailing whitespace trimmed, IfBreak texts are only `,` under a decidable side condition evaluated on every real Doc) + oracle: token/comment streams of original vs formatted, re-parse, emitted SV of both equal modulo layout",
+         "Renderer part proved for all Docs; walker validated on testcases × mutants × options.",
+         "Trusted: Lean kernel; TokenCollector; mini SV lexer of the harness.",
+         "DESIGN.md §4 C09"),
+ "C13": ("proof", "Lean 4 proof: anchors sorted, anchors true (partial: non-empty text, no truncation), 1-based invariant, SourceMap::add shift without underflow + correspondence (Lean anchors of the real emitter Docs vs decoded .sv.map entries) + oracle on both sides of every entry under layout option variants",
+         "Renderer/sourcemap-add part proved; emitter walker validated; blank-anchor finding shared with C28.",
+         "Trusted: Lean kernel; `sourcemap` crate encoder/decoder.",
+         "DESIGN.md §4 C13"),
+ "C26": ("proof", "Lean 4 proof: non-whitespace stream independent of widths/indent/newline for emitter Docs (side condition checked on every real Doc), newline_style replaces exactly line terminators, strip_comments removes exactly comment leaves, `inside` expansion equivalence (partial) + oracle: SV token streams equal under all option combinations",
+         "Renderer-level invariance proved; `inside` expansion proved for in-range bounds with a negated corner; emitter walker validated.",
+         "Trusted: Lean kernel; mini SV lexer; token-stream equality stands in for behavioural equality.",
+         "DESIGN.md §4 C26"),
  "C07": ("proof", "Lean 4 proof over a table-state model of the language server (drop_file removes by file tag; every non-leaky table is a function of the final buffers for every notification history) with the table list and drop set REGENERATED from the analyzer/parser sources (`tables_classified` by decide: a new thread_local table or a table removed from drop_file breaks it); negated statement for leaky tables with witnesses + oracle: real veryl-ls driven over stdio through generated notification histories vs a fresh server on the final buffers",
          "28 of 44 global tables are proved state-free of history under their recorded class; 16 leaky tables: 4 observable (recorded findings with replayed histories), 12 argued unobservable; per-table classes are assumptions with reason strings.",
          "Trusted: Lean kernel; tools/gen.py table extraction; tools/lsp_client.py; the class assigned to each table.",
